@@ -89,8 +89,19 @@ def appOp (args : List String) (impl : String) : Option Verdict := do
       -- leaves no file behind; no command reaches a server while the client is not connected
       let before := splitComma ((field toks "before:").replace ";" ",")
       let after := splitComma ((field toks "fs:").replace ";" ",")
+      -- "after any library error the connection is dropped so that a following 'open' starts a clean session": the program
+      -- answers `open` with "Already connected" more often than the model although the model saw a library error, or opens
+      -- fewer connections than the model
+      let already := str "Already connected, use close first."
+      let countIn (hay : Bytes) : Nat := ((List.range (hay.length + 1 - already.length)).filter fun i => (hay.drop i).take already.length == already).length
+      let modelAlready := (w.out.map fun | .text b => countIn b | _ => 0).sum
+      let modelConns := (w.client.trace.filter fun e => match e with | .ctlConnect _ _ => true | _ => false).length
+      let implConns := (field toks "conns:").toNat?.getD 0
       let viol : Option String :=
         if exitS = "HANG" then some "hang"
+        else if w.out.contains .errorLine && (countIn out > modelAlready || implConns < modelConns ||
+                  (srv.length > modelSrv.length && srv.take modelSrv.length = modelSrv && implConns ≤ modelConns)) then
+          some "connection-kept-after-library-error"
         else if exitS != "0" then some "ended-with-failure-status"
         else if before.any (fun e => e != "-" && !after.contains e) then some "pre-existing-local-file-changed-or-removed"
         else if !okFs && (after.length > (renderFs w.fs |>.splitOn ";").length) then some "file-of-refused-download-left-behind"
